@@ -27,7 +27,7 @@ COMM = ["add", "multiply", "bitwise_and", "bitwise_or", "bitwise_xor", "maximum"
 ZMODEL = ["add", "subtract", "multiply", "divide", "true_divide", "floor_divide", "power", "remainder", "mod", "fmod",
           "bitwise_and", "bitwise_or", "bitwise_xor", "left_shift", "right_shift", "maximum", "minimum", "fmax",
           "fmin", "gcd", "lcm", "heaviside"]
-NPOOL = 20
+NPOOL = 30
 
 
 def labels(rng, sh, ty, op, second):
@@ -110,6 +110,17 @@ def gen(seed, tier):
                 continue
             ty = tys[k % len(tys)]
             out.append(ew2_line(op, ty, s1, labels(rng, s1, ty, op, False), s2, labels(rng, s2, ty, op, True)))
+    # every pair of pool values for every operation: a column of all labels against a row of all labels (each scalar
+    # result is judged against the independent reference; guarded operations keep zeros out of the divisor)
+    for op in LIFT + ZIP:
+        if op in ("bitwise_and", "bitwise_or", "bitwise_xor", "left_shift", "right_shift"):
+            continue
+        for ty in ("f64p", "f32p"):
+            if ty not in types_for(op):
+                continue
+            zero_labels = {"f64p": [0, 1], "f32p": [0, 1, 10]}[ty]
+            e2 = [l for l in range(NPOOL) if not (op in GUARD and l in zero_labels)]
+            out.append(ew2_line(op, ty, [NPOOL, 1], list(range(NPOOL)), [len(e2)], e2))
     # values against the Z instances
     for op in ZMODEL:
         for k, (s1, s2) in enumerate(pairs):
